@@ -951,6 +951,25 @@ func (c *specCtx) call(n *ast.CallExpr) (sv, error) {
 			return sv{}, err
 		}
 		return c.mk(types.Typ[types.UnsafePointer], "(i-tag "+v.S+")"), nil
+	case "haskey":
+		m, err := c.eval(args[0])
+		if err != nil {
+			return sv{}, err
+		}
+		mt, ok := m.T.Underlying().(*types.Map)
+		if !ok {
+			return sv{}, c.errf("haskey: not a map")
+		}
+		k, err := c.eval(args[1])
+		if err != nil {
+			return sv{}, err
+		}
+		k, err = c.coerce(k, mt.Key())
+		if err != nil {
+			return sv{}, err
+		}
+		dom, _ := e.mapRead(c.st, mt, m.S, k.S)
+		return c.mk(tBool, dom), nil
 	case "nonnilptr":
 		// if the dynamic type of the interface value is a pointer type, the pointer is not nil
 		v, err := c.eval(args[0])
